@@ -162,12 +162,29 @@ def gen_invertible(rng, d, k, scalar):
     return a, lead, -n0 + rel, shape
 
 
-def scenario_inverse(rng, Ts, d, B):
+def gen_unsorted(rng, d, k, scalar):
+    """[(n0,0,A), (n0+2,l2,B2), (n0+1,l1,B1)] in every order but the sorted one, requested order 2 relative to the leading one:
+    the Neumann series needs Nseries = 2 terms, which an implementation that does not sort its input gets wrong"""
+    n0 = rng.choice([-1, 0, 2])
+    while True:
+        lead = np.array([[tc.dy(rng, 1, 2) for _ in range(k)] for _ in range(k)])
+        if abs(np.linalg.det(lead)) >= 0.5: break
+    a = [(n0, 0, lead.reshape((1, k, k))), (n0 + 1, rng.randint(0, 1), None), (n0 + 2, rng.randint(0, 1), None)]
+    a = [(n, l, c if c is not None else tc.rand_coeff(rng, d, l, (k, k), density=0.7)) for n, l, c in a]
+    if scalar: a = [(n, l, c.reshape(c.shape[0])) for n, l, c in a]
+    order = rng.choice([(0, 2, 1), (2, 1, 0), (1, 0, 2), (2, 0, 1), (1, 2, 0)])
+    return [a[i] for i in order], lead, -n0 + 2, (() if scalar else (k, k))
+
+
+def scenario_inverse(rng, Ts, d, B, unsorted=False):
     T = Ts[d]
     scalar = rng.random() < .35
     k = 1 if scalar else rng.choice([1, 2, 2])
-    a, lead, Nmax, shape = gen_invertible(rng, d, k, scalar)
-    rng.shuffle(a)                               # inversecoeff sorts its input itself
+    if unsorted:
+        a, lead, Nmax, shape = gen_unsorted(rng, d, k, scalar)
+    else:
+        a, lead, Nmax, shape = gen_invertible(rng, d, k, scalar)
+        rng.shuffle(a)                               # inversecoeff sorts its input itself
     n = k * k
     ta = T([(nn, l, c.astype(complex)) for nn, l, c in a])
     with tc.unchanged("exact tier: inv", a=ta): res = tc.real_coefflist(ta.inv(Nmax))
@@ -182,7 +199,7 @@ def scenario_inverse(rng, Ts, d, B):
            (d, V, An, n, k, k, k, Ai, Al, n, tc.qlist([Fraction(int(i == j)) for i in range(k) for j in range(k)])))
     B.add("code %s (ocmp %d (pclose %d %s) (inversecoeff QK %d 4 %s (matmul QK %d %d %d) %s %s %s%%Z) %s)" %
           (dom, n, n, tol, d, V, k, k, k, An, Ai, tc.zlit(Nmax), tc.mkx_grid(n, res)),
-          op="inv", inp={"dim": d, "shape": list(shape), "a": tc.jsonable(a), "Nmax": Nmax}, impl=tc.jsonable(res),
+          op="inv[unsorted list]" if unsorted else "inv", inp={"dim": d, "shape": list(shape), "a": tc.jsonable(a), "Nmax": Nmax}, impl=tc.jsonable(res),
           dim=d, shape=shape, size=len(a), nontrivial=len(res) > 1, tol=1e-11 * scale)
 
 
@@ -198,7 +215,7 @@ def exact_tier(ck, Ts):
     for g in range(ck.n(24, 500)):
         d = rng.choice([3, 2])
         try:
-            scenario_inverse(rng, Ts, d, B)
+            scenario_inverse(rng, Ts, d, B, unsorted=(g % 3 == 0))
         except (ArithmeticError, ValueError, TypeError, IndexError) as e:
             ck.violation("implementation raised %s: %s in inv" % (type(e).__name__, e), {"dim": d, "group": g}, key="c17-exception-inv")
     import re as _re
@@ -335,7 +352,9 @@ def float_tier(ck, Ts):
         d = rng.choice([3, 2]); T = Ts[d]
         scalar = rng.random() < .3
         k = 1 if scalar else rng.choice([1, 2, 3])
-        a, lead, Nmax, shape = gen_invertible(rng, d, k, scalar)
+        if it % 3 == 0: a, lead, Nmax, shape = gen_unsorted(rng, d, k, scalar)
+        else:
+            a, lead, Nmax, shape = gen_invertible(rng, d, k, scalar); rng.shuffle(a)
         # float perturbation of every coefficient (keeps the leading term invertible and isotropic)
         a = [(n, l, (c + 0.05 * nr.normal(size=c.shape)).astype(complex)) for n, l, c in a]
         if rng.random() < .3: a = [(n, l, c + 0.05j * nr.normal(size=c.shape)) for n, l, c in a]
@@ -344,6 +363,11 @@ def float_tier(ck, Ts):
         try:
             ta = T(a)
             with tc.unchanged("inv", a=ta): inv = ta.inv(Nmax)
+            inv_sorted = T(sorted(a, key=lambda e: (e[0], e[1]))).inv(Nmax)
+            if not tc.same_expansion(inv, inv_sorted, 1e-11):
+                ck.violation("order dependence: inv(Nmax=%d) of a coefficient list given in the order n = %s differs from inv of the same list sorted"
+                             % (Nmax, [n for n, _, _ in a]), {"dim": d, "a": [[n, l, np.asarray(c).tolist()] for n, l, c in a], "Nmax": Nmax},
+                             key="c17-unsorted-inv")
             with tc.unchanged("inv(a)*a", a=ta, inv=inv): pl = inv * ta; pr = ta * inv
             left = tc.impl_value(pl, u, per_order=True)
             right = tc.impl_value(pr, u, per_order=True)
